@@ -103,20 +103,41 @@ def generate(job):
 # ------------------------------------------------------------------------------- multi_sampling core
 
 
-def make_weights(np, spec, total):
-    g = np.random.Generator(np.random.PCG64(spec["wseed"]))
-    if spec["wshape"] == "uniform":
-        w = g.random(total)
-    elif spec["wshape"] == "peaky":
-        w = g.random(total) ** 6
-    else:
-        w = 0.5 + 0.01 * g.random(total)
-    w = spec["wscale"] * (w * 0.999 + 0.001)
-    top = float(np.max(w))
-    for k, s in enumerate(spec["plants"]):
-        if s < total:
-            w[s] = top * spec["plant_factor"] * (1 + k)
-    return w
+def make_weights(np, spec):
+    """lazy, unbounded weight script: weight of proposal `serial` is a pure function of (wseed, serial)"""
+    plants = {int(s): k for k, s in enumerate(spec["plants"])}
+    wscale = spec["wscale"]
+
+    def mix(z):
+        z = (z + np.uint64(0x9E3779B97F4A7C15)) & np.uint64(0xFFFFFFFFFFFFFFFF)
+        z = (z ^ (z >> np.uint64(30))) * np.uint64(0xBF58476D1CE4E5B9)
+        z = (z ^ (z >> np.uint64(27))) * np.uint64(0x94D049BB133111EB)
+        return z ^ (z >> np.uint64(31))
+
+    def W(serials, salt=0):
+        ser = np.asarray(serials, dtype=np.uint64)
+        with np.errstate(over="ignore"):
+            z = mix(ser * np.uint64(2654435761) + np.uint64(spec["wseed"] + salt))
+        u = (z >> np.uint64(11)).astype(np.float64) / float(1 << 53)
+        if salt:
+            return 0.5 + u
+        if spec["wshape"] == "uniform":
+            w = u
+        elif spec["wshape"] == "peaky":
+            w = u**3
+        else:
+            w = 0.5 + 0.01 * u
+        w = wscale * (w * 0.999 + 0.001)
+        for i, s in enumerate(np.asarray(serials).tolist()):
+            if s in plants:
+                w[i] = wscale * min(spec["plant_factor"] * (1 + plants[s]), 12.0)
+        return w
+
+    return W
+
+
+class StubBudget(Exception):
+    pass
 
 
 def run_ms(spec, log):
@@ -127,19 +148,20 @@ def run_ms(spec, log):
     from tf_pwa.generator.generator import multi_sampling
 
     N, max_N = spec["N"], spec["max_N"]
-    total = 400 * max(N, max_N) + 1000
-    W = make_weights(np, spec, total)
-    IMP = None
-    if spec["importance"]:
-        g = np.random.Generator(np.random.PCG64(spec["wseed"] + 1))
-        IMP = 0.5 + g.random(total)
+    Wf = make_weights(np, spec)
     st = {"next": 0, "batches": [], "await": None, "draws": [], "timeline": []}
+
+    def eff(serials):
+        w = Wf(serials)
+        if spec["importance"]:
+            w = w / Wf(serials, salt=1)
+        return w
 
     def phsp(n):
         n = int(n)
         s0 = st["next"]
-        if s0 + n > total:
-            raise RuntimeError("harness stub exhausted")
+        if s0 + n > 300000 or len(st["batches"]) > 3000:
+            raise StubBudget()
         st["next"] = s0 + n
         st["batches"].append({"start": s0, "n": n, "rnd": None})
         return {"serial": tf.constant(np.arange(s0, s0 + n, dtype=np.int64)), "x": tf.constant(np.arange(s0, s0 + n, dtype=np.float64))}
@@ -147,13 +169,13 @@ def run_ms(spec, log):
     def amp(data):
         ser = np.array(data["serial"])
         st["await"] = st["batches"][-1]
-        return tf.constant(W[ser])
+        return tf.constant(Wf(ser))
 
     imp_f = None
-    if IMP is not None:
+    if spec["importance"]:
 
         def imp_f(data):
-            return tf.constant(IMP[np.array(data["serial"])])
+            return tf.constant(Wf(np.array(data["serial"]), salt=1))
 
     mode = spec["mode"]
 
@@ -172,15 +194,15 @@ def run_ms(spec, log):
         return out
 
     preset = None
-    eff_w = W if IMP is None else W / IMP
+    first = eff(np.arange(0, max_N))
     if spec["preset"] == "small":
-        preset = tf.constant(float(np.min(eff_w[: max_N])) * 0.5, dtype=tf.float64)
+        preset = tf.constant(float(np.min(first)) * 0.5, dtype=tf.float64)
     elif spec["preset"] == "large":
-        preset = tf.constant(float(np.max(eff_w)) * 3.0, dtype=tf.float64)
+        preset = tf.constant(spec["wscale"] * 40.0, dtype=tf.float64)
     with rng_seam(spec["rng_seed"], script=script):
         ret, status = multi_sampling(phsp, amp, N, max_N=max_N, force=spec["force"], max_weight=preset, importance_f=imp_f, display=False)
     out_ser = np.array(ret["serial"])
-    return out_ser, st, eff_w, preset
+    return out_ser, st, eff, preset
 
 
 def check_ms(spec, log, out_ser, st, W, preset):
@@ -217,7 +239,7 @@ def check_ms(spec, log, out_ser, st, W, preset):
         if b["rnd"] is None:
             continue
         ser = np.arange(b["start"], b["start"] + b["n"])
-        w = W[ser]
+        w = W(ser)
         mx = float(np.max(w))
         for s, wi, ui in zip(ser, w, b["rnd"]):
             if int(s) in surv and not (ui * mx < wi * (1 + 1e-12)):
@@ -228,7 +250,7 @@ def check_ms(spec, log, out_ser, st, W, preset):
         # thinning pinned to always-pass: survivors == accepted (up to the final truncation to N)
         for bi, b in enumerate(st["batches"]):
             ser = np.arange(b["start"], b["start"] + b["n"])
-            w = W[ser]
+            w = W(ser)
             u = b["rnd"]
             if u is None:
                 continue
@@ -240,13 +262,16 @@ def check_ms(spec, log, out_ser, st, W, preset):
             acc = np.array([int(s) in surv for s in ser])
             with np.errstate(divide="ignore"):
                 ratio = np.where(u > 0, w / np.where(u > 0, u, 1.0), np.inf)  # accepted <=> B < w/u
-            lo = max([float(np.max(W[np.arange(b["start"], b["start"] + b["n"])]))] + [float(r) for r, a in zip(ratio, acc) if not a])
+            lo = max([float(np.max(W(np.arange(b["start"], b["start"] + b["n"]))))] + [float(r) for r, a in zip(ratio, acc) if not a])
             hi = min([np.inf] + [float(r) for r, a in zip(ratio, acc) if a])
             log.count("probe.batch_bound_interval_checked")
             if not (lo < hi * (1 + 1e-12)):
                 log.fail("inclusion-proportional-to-weight", key + "|one-bound-per-batch", "batch %d: no single bound B >= max weight explains the accept/reject decisions (need max(%.6g over rejected w/u and batch max) < min over accepted w/u = %.6g): inclusion is not proportional to weight" % (bi, lo, hi))
                 return
-    if mode == "thin" and st["draws"]:
+    if mode == "thin" and len(st["draws"]) > 1:
+        # an event missing from the output may have been removed by any of the thinnings: not attributable
+        log.count("probe.multiple_thinnings_not_judged")
+    if mode == "thin" and len(st["draws"]) == 1:
         # acceptance pinned to always-accept: every proposal (w > 0) enters; each thinning must be ONE
         # threshold on its uniform draw, i.e. independent of the weight.  The timeline tells which
         # events were alive at each thinning (a thinning precedes the append of the current batch).
@@ -331,6 +356,9 @@ def run_inv(spec, log):
                 y[0] = 0.0
         if g.random() < 0.3:
             y[1:3] = y[0]  # a flat segment (k == 0 branch)
+        if not np.sum(y > 0) >= 2:
+            y[-1] = 0.5
+            y[-2] = max(y[-2], 0.25)  # an all-zero grid is not a density
         li = LinearInterp(x, y)
         cum = np.concatenate([[0.0], li.int_step]) / li.int_all
         u = np.concatenate([np.linspace(0, 1, 41)[:-1], [1 - 2.0**-53], cum[1:-1], g.random(50)])
@@ -512,7 +540,14 @@ def execute(spec):
     nontrivial = False
     try:
         if kind == "ms":
-            out_ser, st, W, preset = run_ms(spec, log)
+            try:
+                out_ser, st, W, preset = run_ms(spec, log)
+            except StubBudget:
+                # the scripted weights make the sampler too inefficient for the step cap: no verdict
+                log.count("probe.step_cap_reached_no_verdict")
+                res = log.result(spec=spec, nontrivial=False)
+                res["opkinds"] = {"ms.capped": 1}
+                return res
             check_ms(spec, log, out_ser, st, W, preset)
             nontrivial = len(st["batches"]) >= 2 or bool(st["draws"])
         elif kind == "interp_ar":
